@@ -35,6 +35,12 @@
 (*   ScenarioDeadline    one deadline for the whole scenario instead of    *)
 (*               one per call: think time between steps eats the budget    *)
 (*                                                                         *)
+(*   DirtyAfterFail      the gun's render buffer keeps the partial output  *)
+(*               of a template that failed DURING execution: the next      *)
+(*               render on the same gun starts with garbage                *)
+(*   LeakMd      rendered metadata goes into ONE per-gun map that is never *)
+(*               cleared: keys of earlier steps travel with later calls    *)
+(*                                                                         *)
 (* Run configuration rcfg = [shared, refl, T]: shared-client on/off,       *)
 (* reflection served by a SEPARATE server (reflect_port), per-call timeout *)
 (* T in abstract ticks (0 = none).  conn[g] is where gun g's calls go:     *)
@@ -48,7 +54,7 @@ EXTENDS Integers, Sequences, FiniteSets, TLC
 CONSTANTS MaxGuns,      \* gun identities 1..MaxGuns (one warm-up gun + one per instance)
           MaxShots,     \* bound on scenario shots per run (design level only)
           KeepLog,      \* keep the log of received calls (design level); the trace spec checks on the fly
-          InPlace, AbortOnBad, DropMd, SharedDialsReflect, ScenarioDeadline
+          InPlace, AbortOnBad, DropMd, SharedDialsReflect, ScenarioDeadline, DirtyAfterFail, LeakMd
 
 VARIABLES kind,     \* "json" | "scn"
           file,     \* sequence of entries [name, steps]
@@ -65,10 +71,13 @@ VARIABLES kind,     \* "json" | "scn"
           nsample,  \* entry index -> [ok, fail] samples reported
           rcfg,     \* [shared, refl, T]
           conn,     \* gun -> "none" | "target" | "reflect": the server its stub is connected to
-          clk       \* gun -> time charged against the deadline in force
+          clk,      \* gun -> time charged against the deadline in force
+          dirty,    \* gun -> its render buffer holds leftovers of a failed render (DirtyAfterFail only)
+          scratch   \* gun -> metadata left in its per-gun map by earlier steps (LeakMd only)
 
 xvars == <<rcfg, conn, clk>>
-vars == <<kind, file, ninst, gst, sh, started, done, stopped, shared, cache, nx, recvlog, nsample, xvars>>
+gvars == <<dirty, scratch>>
+vars == <<kind, file, ninst, gst, sh, started, done, stopped, shared, cache, nx, recvlog, nsample, xvars, gvars>>
 
 Guns == 1..MaxGuns
 Rng(s) == {s[i] : i \in DOMAIN s}
@@ -96,7 +105,7 @@ Fits(step, rec) ==
     /\ rec.method = step.call
     /\ \E t \in {x.tok : x \in rec.fields \cup rec.md} \cup {"-"} :
           /\ rec.fields = RenderSet(step.fields, t)
-          /\ RenderSet(step.md, t) \subseteq rec.md
+          /\ RenderSet(step.md, t) = rec.md        \* exactly the step's metadata (grpc's own entries are not in rec)
 
 AllSteps(f) == UNION {Rng(f[i].steps) : i \in DOMAIN f}
 \* the keys of the shared template store: (call definition, metadata key)
@@ -107,6 +116,8 @@ InitCfg(k, f, n, c) ==
     /\ rcfg = c
     /\ conn = [g \in Guns |-> "none"]
     /\ clk = [g \in Guns |-> 0]
+    /\ dirty = [g \in Guns |-> FALSE]
+    /\ scratch = [g \in Guns |-> {}]
     /\ kind = k /\ file = f /\ ninst = n
     /\ gst = [g \in Guns |-> [st |-> "none", inst |-> -1]]
     /\ sh = [g \in Guns |-> Idle]
@@ -124,7 +135,7 @@ InitWith(k, f, n) == InitCfg(k, f, n, DefaultCfg)
 NewGun(g) ==
     /\ gst[g].st = "none"
     /\ gst' = [gst EXCEPT ![g].st = "new"]
-    /\ UNCHANGED <<kind, file, ninst, sh, started, done, stopped, shared, cache, nx, recvlog, nsample, xvars>>
+    /\ UNCHANGED <<kind, file, ninst, sh, started, done, stopped, shared, cache, nx, recvlog, nsample, xvars, gvars>>
 
 Bind(g, i) ==
     /\ gst[g].st = "new"
@@ -133,7 +144,7 @@ Bind(g, i) ==
     /\ gst' = [gst EXCEPT ![g] = [st |-> "bound", inst |-> i]]
     \* Bind takes a stub of the shared pool (prepareClientPool: makeConnect) or dials its own (makeConnect)
     /\ conn' = [conn EXCEPT ![g] = IF rcfg.shared /\ rcfg.refl /\ SharedDialsReflect THEN "reflect" ELSE "target"]
-    /\ UNCHANGED <<kind, file, ninst, sh, started, done, stopped, shared, cache, nx, recvlog, nsample, rcfg, clk>>
+    /\ UNCHANGED <<kind, file, ninst, sh, started, done, stopped, shared, cache, nx, recvlog, nsample, rcfg, clk, gvars>>
 
 ShootBegin(g, idx, gid) ==
     /\ gst[g].st = "bound" /\ sh[g].ph = "idle" /\ g \notin stopped
@@ -143,21 +154,23 @@ ShootBegin(g, idx, gid) ==
     /\ sh' = [sh EXCEPT ![g] = [idx |-> idx, step |-> 1, ph |-> "call", gid |-> gid, failed |-> FALSE]]
     /\ started' = [started EXCEPT ![idx] = @ + 1]
     /\ clk' = [clk EXCEPT ![g] = 0]
-    /\ UNCHANGED <<kind, file, ninst, gst, done, stopped, shared, cache, nx, recvlog, nsample, rcfg, conn>>
+    /\ UNCHANGED <<kind, file, ninst, gst, done, stopped, shared, cache, nx, recvlog, nsample, rcfg, conn, gvars>>
 
 CurStep(g) == file[sh[g].idx].steps[sh[g].step]
 
 \* the call reaches the server carrying rec; newShared/newCache: effect on the template store
 \* srv: the server that received it -- the one the gun's stub is connected to
-SendAct(g, rec, newShared, newCache, drawn, srv) ==
+SendAct(g, rec, newShared, newCache, drawn, srv, newScratch) ==
     /\ sh[g].ph = "call"
     /\ CurStep(g).bad = "none"
+    /\ ~(DirtyAfterFail /\ dirty[g])                  \* (negative control) a garbage-prefixed payload is never sent
     /\ srv = conn[g]
     /\ rcfg.T = 0 \/ clk[g] < rcfg.T                   \* the call starts with budget left
     /\ sh' = [sh EXCEPT ![g].ph = "sample"]
     /\ recvlog' = IF KeepLog THEN recvlog \cup {[idx |-> sh[g].idx, step |-> sh[g].step, rec |-> rec, srv |-> srv]} ELSE recvlog
     /\ shared' = newShared /\ cache' = newCache /\ nx' = nx + drawn
-    /\ UNCHANGED <<kind, file, ninst, gst, started, done, stopped, nsample, xvars>>
+    /\ scratch' = newScratch
+    /\ UNCHANGED <<kind, file, ninst, gst, started, done, stopped, nsample, xvars, dirty>>
 
 \* the deferred Report of the current step
 Sample(g, tag, ok) ==
@@ -165,6 +178,7 @@ Sample(g, tag, ok) ==
     /\ \/ /\ sh[g].ph = "call" /\ ~ok                                   \* never sent: failed sample
           /\ \/ CurStep(g).bad # "none"
              \/ ScenarioDeadline /\ rcfg.T > 0 /\ clk[g] >= rcfg.T      \* (negative control) deadline used up by think time
+             \/ DirtyAfterFail /\ dirty[g]                             \* (negative control) leftovers of a failed render
           /\ sh' = [sh EXCEPT ![g].ph = "end", ![g].failed = TRUE]
        \/ /\ sh[g].ph = "sample" /\ ok                                  \* answered by the target
           /\ sh' = [sh EXCEPT ![g] = IF sh[g].step < Len(file[sh[g].idx].steps)
@@ -173,14 +187,16 @@ Sample(g, tag, ok) ==
     /\ nsample' = [nsample EXCEPT ![sh[g].idx] = IF ok THEN [@ EXCEPT !.ok = @ + 1] ELSE [@ EXCEPT !.fail = @ + 1]]
     \* per-call deadline: the next call starts a fresh one; the step's sleep is not charged to anything
     /\ clk' = [clk EXCEPT ![g] = IF ScenarioDeadline /\ ok THEN @ + CurStep(g).sleep ELSE 0]
-    /\ UNCHANGED <<kind, file, ninst, gst, started, done, stopped, shared, cache, nx, recvlog, rcfg, conn>>
+    \* a template that fails during execution has already written part of its output
+    /\ dirty' = [dirty EXCEPT ![g] = DirtyAfterFail /\ ~ok /\ CurStep(g).bad = "tmplfail"]
+    /\ UNCHANGED <<kind, file, ninst, gst, started, done, stopped, shared, cache, nx, recvlog, rcfg, conn, scratch>>
 
 ShootEnd(g) ==
     /\ sh[g].ph = "end"
     /\ done' = [done EXCEPT ![sh[g].idx] = @ + 1]
     /\ stopped' = IF AbortOnBad /\ sh[g].failed THEN stopped \cup {g} ELSE stopped
     /\ sh' = [sh EXCEPT ![g] = Idle]
-    /\ UNCHANGED <<kind, file, ninst, gst, started, shared, cache, nx, recvlog, nsample, xvars>>
+    /\ UNCHANGED <<kind, file, ninst, gst, started, shared, cache, nx, recvlog, nsample, xvars, gvars>>
 
 (*********** what the modelled gun puts on the wire (design level) **********)
 Tok(n) == "t" \o ToString(n)   \* the n-th value of the variable source (opaque)
@@ -192,7 +208,8 @@ ModelSend(g) ==
         t  == Tok(nx)
         templ == {m \in s.md : m.tok = ""}
         mdAll == {[m EXCEPT !.tok = MdVal(g, s.def, m, t)] : m \in s.md}
-        md    == IF DropMd THEN {m \in mdAll : m.k # "a"} ELSE mdAll
+        own   == IF DropMd THEN {m \in mdAll : m.k # "a"} ELSE mdAll
+        md    == IF LeakMd THEN own \cup {m \in scratch[g] : \A o \in own : o.k # m.k} ELSE own
         rec   == [method |-> s.call, fields |-> RenderSet(s.fields, t), md |-> md]
         nc    == [cache EXCEPT ![g] = [x \in DOMAIN @ |->
                      IF \E m \in templ : x = <<s.def, m.k>> THEN
@@ -202,7 +219,7 @@ ModelSend(g) ==
                                                THEN MdVal(g, s.def, CHOOSE m \in templ : x = <<s.def, m.k>>, t)
                                                ELSE shared[x]]
                  ELSE shared
-    IN SendAct(g, rec, ns, nc, IF kind = "scn" THEN 1 ELSE 0, conn[g])
+    IN SendAct(g, rec, ns, nc, IF kind = "scn" THEN 1 ELSE 0, conn[g], IF LeakMd THEN [scratch EXCEPT ![g] = md] ELSE scratch)
 
 RECURSIVE SumTo(_, _)
 SumTo(f, n) == IF n = 0 THEN 0 ELSE f[n] + SumTo(f, n - 1)
